@@ -122,6 +122,10 @@ def crate_attr(kind='path', trailing=False):
     return Attr('dw', metas_body([MNameValue('crate', kind, P('dw'))], trailing=trailing))
 
 
+RUSTC_OWN = re.compile(r'expected non-macro attribute|cannot find attribute|cannot find derive macro|cannot find macro|'
+                       r'produced unparsable tokens|cannot determine resolution|is not a trait|expected one of|'
+                       r'attribute macro .* (is|was) (ambiguous|private)')
+
 STAGE1_KINDS = {'dup': 0.03, 'badval': 0.08, 'unnecessary': 0.12, 'args': 0.14, 'forms': 0.15, 'marker': 0.17, 'dwq': 0.20}
 
 
@@ -372,6 +376,23 @@ def directed(prop, cfg, n=5000, cap=80):
         ho, mo = engine.outcome(h), engine.outcome(m)
         if ho != mo or (ho == 'ok' and h != m):
             out.append(('directed-' + stream, it))
+    # stage 1 as well (the attribute macro: crate option, visited marker, the re-emitted item on an error)
+    try:
+        hook1, _ = runner.run_hook(cfg, ['1 ' + it.rust1() for it in view], tag='-%s-cdirected1' % prop)
+        _, bits = runner.CONFIGS[cfg]
+        data = ''.join('stage1 %s %s ## %s\n' % (bits, it.sexp(), it.segs_sexp()) for it in view)
+        model1 = subprocess.run([runner.DRIVER], input=data, stdout=subprocess.PIPE, text=True).stdout.split('\n')
+        seen = {id(it) for _, it in out}
+        for (stream, it), h, m in zip(cands, hook1 or [], model1):
+            if id(it) in seen:
+                continue
+            same = h == m
+            if not same and h.startswith('err') and m.startswith('err') and ' @@ ' in h and ' @@ ' in m:
+                same = h.split(' @@ ')[1] == m.split(' @@ ')[1]     # the re-emitted item; wording is not compared
+            if not same:
+                out.append(('directed1-' + stream, it))
+    except Exception:
+        pass
     out.sort(key=lambda x: len(x[1].rust1()))
     return out[:cap]
 
@@ -485,8 +506,10 @@ def run_(prop, cfg, seed, n=150, named=None):
             else:
                 bad = ('accepted: no error', errs[:3])
         elif kind == 'err':
-            own = [t for c, t in errs if not c]              # errors without a code are the macro's `compile_error!`s
-            other = [(c, t) for c, t in errs if c]
+            # errors without a code are the macro's `compile_error!`s -- except the code-less errors of rustc's own
+            # resolver / expander, which mean that the re-emitted item is damaged (helper attributes left behind, ..)
+            own = [t for c, t in errs if not c and not RUSTC_OWN.search(t)]
+            other = [(c or 'rustc', t) for c, t in errs if c or RUSTC_OWN.search(t)]
             if own and not any(msg_match(msg, t) for t in own):
                 rep['message_differences'] = rep.get('message_differences', 0) + 1
             if not errs:
